@@ -206,15 +206,19 @@ struct Conv {
                 o["op"] = getOperatorSpelling(O->getOperator());
                 if (FD && isa<CXXMethodDecl>(FD) && !cast<CXXMethodDecl>(FD)->isStatic() && O->getNumArgs() > 0) { o["recv"] = expr(O->getArg(0)); firstArg = 1; }
             }
-            json::Array a, pt;
+            json::Array a, pt, vt;
+            bool variadic = FD && FD->isVariadic();
             for (unsigned i = firstArg; i < X->getNumArgs(); ++i) {
                 if (isa<CXXDefaultArgExpr>(X->getArg(i))) continue;
                 a.push_back(expr(X->getArg(i)));
                 unsigned pi = i - firstArg;
                 if (FD && pi < FD->getNumParams()) pt.push_back(ty(FD->getParamDecl(pi)->getType())); else pt.push_back("");
+                // the type an argument has when it travels through the ellipsis (after the default argument promotions), typedefs resolved
+                if (variadic) vt.push_back(X->getArg(i)->getType().getCanonicalType().getAsString(C.getPrintingPolicy()));
             }
             o["a"] = std::move(a);
             o["pt"] = std::move(pt);
+            if (variadic) o["vt"] = std::move(vt);
             return std::move(o);
         }
         if (auto * X = dyn_cast<CXXNewExpr>(E)) return json::Object{{"k", "heapnew"}, {"t", ty(X->getAllocatedType())}, {"e", expr(X->getConstructExpr())}, {"ln", line(X->getBeginLoc())}};
